@@ -749,6 +749,12 @@ def resolved(expr, funcnode, depth=4):
                 if len(las) == 1 and las[0][2] == 'assign' and las[0][0] is not None:
                     return Sub(self.d - 1).visit(_clone_ast(las[0][0]))
             return node
+
+        def visit_IfExp(self, node):
+            self.generic_visit(node)
+            if isinstance(node.test, ast.Constant):       # `a if False else b` (a substituted keyword default)
+                return node.body if node.test.value else node.orelse
+            return node
     return Sub(depth).visit(_clone_ast(expr))
 
 
